@@ -50,7 +50,12 @@ def gen_ti_case(rng, tier):
         size = pick(rng, sizes) if rng.random() < 0.8 else rng.randint(0, 3 * MiB if tier != "quick" else MiB + 5000)
         rel = "%s/file%d.img" % (pick(rng, ["images", "LiveOS", "Deep/er/dir"]), i)
         files.append((rel, size))
-        ops.append({"op": "fs_file", "path": "/sim/tree/" + rel, "size": size, "seed": rng.randint(0, 10 ** 9)})
+        if rng.random() < 0.2:
+            # the file is kept in a pool directory; the name in the tree is a RELATIVE symbolic link to it
+            ops.append({"op": "fs_file", "path": "/sim/tree/pool/file%d.img" % i, "size": size, "seed": rng.randint(0, 10 ** 9)})
+            ops.append({"op": "fs_symlink", "path": "/sim/tree/" + rel, "target": "../" * rel.count("/") + "pool/file%d.img" % i})
+        else:
+            ops.append({"op": "fs_file", "path": "/sim/tree/" + rel, "size": size, "seed": rng.randint(0, 10 ** 9)})
     for _ in range(rng.randint(2, 7)):
         rel, size = pick(rng, files)
         r = rng.random()
